@@ -7,8 +7,8 @@ import time
 
 from . import env
 
-EVID_DIR = os.path.join(env.VERIF, "evidence")
-REPLAY_DIR = os.path.join(env.VERIF, "replays")
+EVID_DIR = os.environ.get("VERIF_EVIDENCE_DIR") or os.path.join(env.VERIF, "evidence")  # redirected by self-tests
+REPLAY_DIR = os.environ.get("VERIF_REPLAY_DIR") or os.path.join(env.VERIF, "replays")
 KNOWN_FILE = os.path.join(env.VERIF, "known_findings.json")
 
 
